@@ -2,6 +2,8 @@ import TabulaModel.Util
 import TabulaModel.Model.Split
 import TabulaModel.Model.Overlap
 import TabulaModel.Model.Sentences
+import TabulaModel.Model.SemBoundary
+import TabulaModel.Model.OverlapApi
 /-!
 Line protocol of C13 (all byte strings lower-case hex, `-` = empty):
 
@@ -29,6 +31,24 @@ Line protocol of C13 (all byte strings lower-case hex, `-` = empty):
 * `c13.nonspace <text>` → the text without its White_Space characters (`stripWs`, the
   specification-side function of the conservation theorems; the harness computes it from
   `unicode.IsSpace`)
+
+Round 6 (`Model/SemBoundary.lean`, `Model/OverlapApi.lean`):
+
+* `c13.detect <blocks>` → `ty:pos:score:elem,…` (`DetectBoundaries`; blocks =
+  `<elementType>.<isListIntro>.<text>,…`, `-` = none)
+* `c13.splitd <cfg> <blocks>` → `[p1,…]` (`SplitToSize(join(blocks, "\n\n"), DetectBoundaries(blocks))`)
+* `c13.best <minPos> <maxPos> <pos:score,…>` → `pos:score` or `none` (`FindBestBoundary`)
+* `c13.look <lookAheadChars> <target> <pos:score,…>` → same (`FindBoundaryWithLookAhead`)
+* `c13.orphan <minOrphanSize> <position> <pos:score,…> <text>` → `<would>/<adjusted>`
+  (`WouldCreateOrphan` 0/1, `AdjustForOrphans`; `panic` where the code indexes out of range)
+* `c13.orig <ovl cfg> <classes> <titles> <chunks>` →
+  `[original/hasSuffix/suffix/chars:words:tokens,…]` (`GetOriginalText`, `HasOverlapSuffix`,
+  `OverlapSuffix` and the rewritten metadata of every chunk `ApplyOverlapToChunks` returns)
+* `c13.gen <ovl cfg> <classes> <text>` → `text/charCount/sentenceCount/strategy` (`GenerateOverlap`)
+* `c13.content <text>` → the non-whitespace characters of `string([]rune(text))` (`content`, the
+  specification-side function of the overlap theorems for arbitrary bytes)
+* `c13.conv <value> <from> <to>` → `ConvertSize`
+* `c13.defovl` → `DefaultOverlapConfig` as an `<ovl cfg>`
 -/
 namespace Tabula.C13H
 open Tabula Tabula.Split Tabula.Overlap
@@ -150,7 +170,87 @@ def handleApi (op : String) (args : List String) : Option String :=
     | _, _ => some "bad-op"
   | _, _ => none
 
+open Tabula.SemBoundary Tabula.OverlapApi in
+def parseBlock (s : String) : Option Block :=
+  match s.splitOn "." with
+  | [k, i, t] => do
+    let k ← k.toNat?
+    let t ← unhexS t
+    pure { kind := Kind.ofWire k, text := t, intro := i == "1" }
+  | _ => none
+
+open Tabula.SemBoundary in
+def parseBlocks (s : String) : Option (List Block) :=
+  if s == "-" then some [] else (s.splitOn ",").mapM parseBlock
+
+def dumpBoundary : Option Boundary → String
+  | some b => s!"{b.pos}:{b.score}"
+  | none => "none"
+
+open Tabula.SemBoundary Tabula.OverlapApi in
+/-- the ops of round 6 (boundary detection, original text, overlap result, conversions) -/
+def handleRound6 (op : String) (args : List String) : Option String :=
+  match op, args with
+  | "c13.detect", [blocks] =>
+    match parseBlocks blocks with
+    | some bl =>
+      let ds := detectBoundaries bl
+      some (if ds.isEmpty then "-" else
+        ",".intercalate (ds.map fun d => s!"{d.ty.no}:{d.pos}:{d.score}:{d.elem}"))
+    | none => some "bad-op"
+  | "c13.splitd", [cfg, blocks] =>
+    match parseCfg cfg, parseBlocks blocks with
+    | some c, some bl =>
+      some (dumpList (splitToSize c (joinBlocks bl) ((detectBoundaries bl).map DBoundary.toBoundary)))
+    | _, _ => some "bad-op"
+  | "c13.best", [mn, mx, bs] =>
+    match mn.toInt?, mx.toNat?, parseBoundaries bs with
+    | some mn, some mx, some bs => some (dumpBoundary (findBestBoundary bs mn mx))
+    | _, _, _ => some "bad-op"
+  | "c13.look", [la, target, bs] =>
+    match la.toNat?, target.toNat?, parseBoundaries bs with
+    | some la, some t, some bs => some (dumpBoundary (findBoundaryWithLookAhead bs la t))
+    | _, _, _ => some "bad-op"
+  | "c13.orphan", [mo, pos, bs, text] =>
+    match mo.toNat?, pos.toNat?, parseBoundaries bs, unhexS text with
+    | some mo, some pos, some bs, some t =>
+      let w := match wouldCreateOrphan mo t pos with
+        | some true => "1" | some false => "0" | none => "panic"
+      let a := match adjustForOrphans mo t pos bs with
+        | some q => toString q | none => "panic"
+      some s!"{w}/{a}"
+    | _, _, _, _ => some "bad-op"
+  | "c13.orig", [cfg, classes, titles, chunks] =>
+    match parseOvlCfg cfg, parseClasses classes, parseHexList titles, parseHexList chunks with
+    | some c, some cl, some ts, some cs =>
+      let outs := applyOverlapToChunks cl c cs ts
+      let full := withSuffixes outs
+      some ("[" ++ ",".intercalate ((outs.zip full).map fun (o, f) =>
+        s!"{hexS (getOriginalText o)}/{if f.hasSuffix then 1 else 0}/{hexS f.suffix}/{f.charCount}:{f.wordCount}:{f.tokens}") ++ "]")
+    | _, _, _, _ => some "bad-op"
+  | "c13.gen", [cfg, classes, text] =>
+    match parseOvlCfg cfg, parseClasses classes, unhexS text with
+    | some c, some cl, some t =>
+      let r := generateOverlapResult cl c t
+      some s!"{hexS r.text}/{r.charCount}/{r.sentenceCount}/{r.strategy}"
+    | _, _, _ => some "bad-op"
+  | "c13.content", [text] =>
+    match unhexS text with
+    | some t => some (hexS (Tabula.Overlap.content t))
+    | none => some "bad-op"
+  | "c13.conv", [v, a, b] =>
+    match v.toNat?, a.toNat? >>= unitOf, b.toNat? >>= unitOf with
+    | some v, some a, some b => some (toString (convertSize v a b))
+    | _, _, _ => some "bad-op"
+  | "c13.defovl", [] =>
+    let c := defaultOverlapConfig
+    some s!"{c.strategy}:{c.size}:{c.minOverlap}:{c.maxOverlap}:{if c.preserveWords then 1 else 0}:{if c.includeHeadingContext then 1 else 0}"
+  | _, _ => none
+
 def handle (op : String) (args : List String) : String :=
+  match handleRound6 op args with
+  | some r => r
+  | none =>
   match handleApi op args with
   | some r => r
   | none =>
